@@ -410,7 +410,45 @@ def _bound():
     return _BOUND[0]
 
 
-SUBS = {"program": sub_program, "special": sub_special}
+def sub_large(case):
+    """Inputs big enough to pass any size gate (>= 2^20 cells): compiled vs interpreted source on integer data, where the interpreter's
+    arithmetic is exact (widened to int64) and every compiled accumulator of the current source is float64 / int64."""
+    name, n, salt = case["prog"], int(case["n"]), int(case["salt"])
+    t = np.arange(n, dtype=np.int64)
+    vals = ((t * 7919 + salt * 104729 + (t // 97) * 31) % 2001 + 100).astype("int16")
+    nd = -9999
+    vals[(t * 13 + salt) % 41 == 0] = nd
+    twins.PROXY.rounded.clear()
+    _rounded.clear()
+    LAYOUT["mode"] = "contig"
+    with warnings.catch_warnings():
+        warnings.simplefilter("ignore")
+        if name == "zonal.do_mean":
+            T_ = 3
+            side = int(math.isqrt(n // T_))
+            pix = vals[:T_ * side * side].reshape(T_, side, side)
+            z = ((np.arange(side * side) // 5 + salt) % 4).astype("int16").reshape(side, side)
+            got, tw = nj(name, (pix, z, 4, nd, -1, np.float32), twin_args=(_widen(pix), z, 4, nd, -1, np.float32))
+            for _ in range(2):
+                again = call(name, PROGS[name], pix, z, 4, nd, -1, np.float32)
+                req(np.array_equal(np.asarray(again), got[0], equal_nan=True), "%s: repeated compiled runs on a %d-cell input differ" % (name, pix.size),
+                    name + " compiled run not reproducible")
+        elif name == "stats.mean_grp":
+            g = ((t // 3 + salt) % 2).astype("int16")
+            got, tw = gu(name, (vals, g, 2, float(nd)), [(n, "f4")], twin_ins=(_widen(vals), g, 2, float(nd)))
+        elif name == "stats.rolling_sum":
+            got, tw = gu(name, (vals, 5, float(nd)), [(n, "f4")], twin_ins=(_widen(vals), 5, float(nd)))
+        elif name == "lroo.lroo":
+            bits = (vals % 3 != 0).astype("uint8")
+            got, tw = gu(name, (bits,), [(1, "uint32")])
+        elif name == "autocorr.autocorr_1d_int":
+            got, tw = nj(name, (vals, nd), twin_args=(_widen(vals), nd))
+        else:
+            raise KeyError(name)
+    compare(name, {"dtype": "int16"}, got, tw, list(twins.PROXY.rounded) + list(_rounded))
+
+
+SUBS = {"program": sub_program, "special": sub_special, "large": sub_large}
 
 
 @st.composite
@@ -454,6 +492,18 @@ def run(ctx):
     req_n = len(names)
     if req_n != 35:
         print("note: %d programs discovered (the property counts 35)" % req_n)
+
+    # inputs beyond any plausible size gate (>= 2^20 cells), one or two per program whose interpreted run is affordable
+    larges = [("zonal.do_mean", 3 * 600 * 600), ("stats.mean_grp", 2 ** 20 + 4099), ("stats.rolling_sum", 2 ** 20 + 7), ("lroo.lroo", 2 ** 21), ("autocorr.autocorr_1d_int", 2 ** 20 + 1)]
+    for k in range(ctx.n(1, 4)):
+        for name, n in larges:
+            if name not in PROGS:
+                continue
+            case = {"prog": name, "n": n + 1009 * k, "salt": ctx.seed * 7 + k}
+            rec.case("large", case, nontrivial=True, cls="large:" + name)
+            checked["n"] += 1
+            if not ctx.run_case("large", case):
+                return
 
     def f_s(case):
         rec.case("special", case, nontrivial=True, cls="special")
